@@ -70,3 +70,19 @@ def covered(T, fn, dnames):
         if k["fn"] == fn and len(k["classes"]) == len(cl) and all(p == "*" or p == c for p, c in zip(k["classes"], cl)):
             return k["tuple"]
     return None
+
+
+def coqc_many_consistent(jobs, timeout=900, retries=2):
+    """core.coqc_many, but when a shard fails because the shared table/.vo files were rebuilt by a concurrent check
+    (another process regenerating coq/C04_RuleTable.v between our build and our shards), rebuild and retry."""
+    import core
+    res = core.coqc_many(jobs, timeout=timeout)
+    for _ in range(retries):
+        bad = [i for i, (rc, out) in enumerate(res) if rc != 0 and ("inconsistent assumptions" in out or "Cannot find a physical path" in out or "bad version number" in out or "is not a valid" in out)]
+        if not bad:
+            break
+        core.build_coq()
+        again = core.coqc_many([jobs[i] for i in bad], timeout=timeout)
+        for i, r in zip(bad, again):
+            res[i] = r
+    return res
